@@ -788,7 +788,7 @@ pub proof fn lemma_shrinks_trans(a: &Config, b: &Config, c: &Config)
         /*[C09.unknown]*/ !old(domain_targets)@.contains_key(*target_id) && !cfg_has(old(config), *target_id) ==> r is Err,
         /*[C09.acyclic]*/ !old(domain_targets)@.contains_key(*target_id) && parent_targets@.contains(target_id) ==> r is Err,
         /*[C09.acyclic]*/ r is Ok ==> chain_untouched(old(domain_targets)@, final(domain_targets)@, parent_targets@),
-        /*[C09.only-reachable]*/ r is Ok ==> forall|k: TargetId| #![trigger final(domain_targets)@.contains_key(k)] final(domain_targets)@.contains_key(k) && !old(domain_targets)@.contains_key(k) ==> reach(final(domain_targets)@, *target_id, k),
+        /*[C09.only-reachable,C08.only-closure]*/ r is Ok ==> forall|k: TargetId| #![trigger final(domain_targets)@.contains_key(k)] final(domain_targets)@.contains_key(k) && !old(domain_targets)@.contains_key(k) ==> reach(final(domain_targets)@, *target_id, k),
         r is Err ==> closed(final(domain_targets)@) && keyed(final(domain_targets)@),
     decreases
         /*[C09.terminates]*/ remaining(old(config), keys_of(old(config))),
@@ -944,7 +944,7 @@ impl Config {
     ensures
         /*[C09.closed]*/ r matches Ok(m) ==> closed(m@) && forall|i: int| 0 <= i < root_target_ids@.len() ==> m@.contains_key(#[trigger] root_target_ids@[i]),
         /*[C09.keyed]*/ r matches Ok(m) ==> keyed(m@),
-        /*[C09.only-reachable]*/ r matches Ok(m) ==> forall|k: TargetId| #![trigger m@.contains_key(k)] m@.contains_key(k) ==> exists|j: int| 0 <= j < root_target_ids@.len() && reach(m@, #[trigger] root_target_ids@[j], k),
+        /*[C09.only-reachable,C08.only-closure]*/ r matches Ok(m) ==> forall|k: TargetId| #![trigger m@.contains_key(k)] m@.contains_key(k) ==> exists|j: int| 0 <= j < root_target_ids@.len() && reach(m@, #[trigger] root_target_ids@[j], k),
 //@pre
         broadcast use group_keys;
         broadcast use vstd::std_specs::hash::group_hash_axioms;
